@@ -112,6 +112,20 @@ def impl(case):
             res['back'] = back
     except Exception as e:
         return dict(err=type(e).__name__, msg=str(e)[:100])
+    # the legacy functional front-end must agree with the method (it has no error handling: conforming input only)
+    if case['kind'] != 'bad':
+        try:
+            from PseudoNetCDF.core._functions import stack_files
+            fs2 = [pfile.build(s) for s in case['files']]
+            dimnames = {d[0] for d in case['files'][0]['dims']}
+            for f2, s2 in zip(fs2, case['files']):
+                # coordinate variables are declared as such (they are exempt from the duplicate warning)
+                f2.setCoords([v['name'] for v in s2['vars'] if v['name'] in dimnames])
+            with lib.pnc_warnings():
+                o2 = stack_files(fs2, case['dim'])
+            res['legacy'] = pfile.observe(o2, with_unlim=False)
+        except Exception as e:
+            res['legacy_err'] = '%s: %s' % (type(e).__name__, str(e)[:80])
     return res
 
 
@@ -127,7 +141,42 @@ def agree(case, out, res):
         return None if out.startswith('err') else 'impl raised %s (%s), model %s' % (res['err'], res.get('msg'), out[:80])
     if not out.startswith('ok '):
         return 'model %s, impl returned' % out[:80]
-    return pfile.diff_obs(out[3:], res['obs'])
+    d = pfile.diff_obs(out[3:], res['obs'])
+    if d:
+        return d
+    if 'legacy' in res:
+        kind, d = _legacy_diff(out[3:], res['legacy'], case)
+        if kind == 'other':
+            return 'stack_files (legacy front-end): ' + d
+    elif 'legacy_err' in res:
+        return 'stack_files (legacy front-end) raised %s' % res['legacy_err']
+    return None
+
+
+def _legacy_diff(ref, legacy, case):
+    """(None|'maskloss'|'other', message): stack_files vs the reference observation; 'maskloss' = the only
+    differences are masked cells of variables WITHOUT the stack dimension that come back as the fill value"""
+    a, b = pfile.parse_obs(ref), pfile.parse_obs(legacy)
+    if {k: v[0] for k, v in a['dims'].items()} != {k: v[0] for k, v in b['dims'].items()}:
+        return 'other', 'dimensions %s vs %s' % (a['dims'], b['dims'])
+    if sorted(a['vars']) != sorted(b['vars']):
+        return 'other', 'variables %s vs %s' % (sorted(a['vars']), sorted(b['vars']))
+    loss = None
+    for k in a['vars']:
+        va, vb = a['vars'][k], b['vars'][k]
+        if va['dims'] != vb['dims'] or va['shape'] != vb['shape'] or va['attrs'] != vb['attrs']:
+            return 'other', 'variable %s structure differs' % k
+        if va['cells'] == vb['cells']:
+            continue
+        ca, cb = va['cells'].split(','), vb['cells'].split(',')
+        if case['dim'] not in va['dims'].split('.') and len(ca) == len(cb) and \
+                all(x == y or (x == '_' and y == '-999') for x, y in zip(ca, cb)):
+            loss = 'variable %s (without the stack dimension) lost its mask: %s' % (k, vb['cells'][:80])
+            continue
+        return 'other', 'variable %s cells %s vs %s' % (k, va['cells'][:100], vb['cells'][:100])
+    if a['attrs'] != b['attrs']:
+        return 'other', 'file attributes differ'
+    return ('maskloss', loss) if loss else (None, None)
 
 
 def _expected_text(spec):
@@ -149,6 +198,17 @@ def oracle(case, res):
         return None
     if 'err' in res:
         return 'stacking conforming files raised %s %s' % (res['err'], res.get('msg'))
+    if 'legacy' in res:
+        kind, d = _legacy_diff(res['obs'], res['legacy'], case)
+        if kind == 'other':
+            return 'stack_files differs from PseudoNetCDFFile.stack: ' + d
+        if kind == 'maskloss':
+            first = _core_oracle(case, res)
+            return first or ('stack_files mask loss: ' + d)
+    return _core_oracle(case, res)
+
+
+def _core_oracle(case, res):
     if case['kind'] == 'split':
         d = pfile.diff_obs(_expected_text(case['orig']), res['obs'])
         if d:
@@ -184,8 +244,22 @@ def oracle(case, res):
     return None
 
 
+KEY_LEGACY = 'C04/stack_files/masked-variable-without-stack-dimension'
+
+
 def classify(case, failure, model_out):
+    if failure.startswith('stack_files mask loss'):
+        return KEY_LEGACY
     return None
+
+
+def witnesses():
+    spec = dict(dims=[['t', 2, False], ['x', 2, False]],
+                vars=[dict(name='A', dims=['t', 'x'], dtype='d', masked=False, attrs=[], data=[1, 2, 3, 4]),
+                      dict(name='M', dims=['x'], dtype='d', masked=True, attrs=['fill_value'], data=[None, 7])],
+                attrs=[])
+    import copy
+    return [(KEY_LEGACY, dict(kind='indep', dim='t', files=[spec, copy.deepcopy(spec)]))]
 
 
 def nontrivial(case, res):
